@@ -23,6 +23,12 @@ impl<T> Vec2D<T> {
         }
     }
 
+    /// All elements in row-major order (verification hook).
+    #[cfg(lzma_rs_verif)]
+    pub fn verif_data(&self) -> &[T] {
+        &self.data
+    }
+
     /// Fills the grid with elements by cloning `value`.
     pub fn fill(&mut self, value: T)
     where
